@@ -1015,6 +1015,12 @@ class C11(core.Check):
                 arcs.append([e.vertex_1.index, e.vertex_2.index, e.kind, _rat3(e.third_point.position), org])
         out["arcs"] = arcs
         out["edge_kinds"] = sorted({e.kind for e in mesh.edge_list.edges})
+        if case["kind"] == "Box":
+            # the corners Box.__init__ computes from the two given points, before the box is placed
+            pp = case["p"]
+            a0 = [fl(x) for x in pp["a"]]
+            d0 = [a0[i] + pp["sg"][i] * fl(pp["d"][i]) for i in range(3)]
+            out["box_local"] = [_rat3(q) for q in cb.Box(a0, d0).point_array]
         # faces projected to a declared geometry, and what the geometry section declares
         out["projected"] = [[fc.label, [v.index for v in fc.side.vertices]] for fc in mesh.face_list.faces]
         out["geometry"] = {str(k): [str(x) for x in v] for k, v in mesh.geometry_list.geometry.items()}
@@ -1108,6 +1114,10 @@ class C11(core.Check):
         name = self._table_name(case)
         if name:
             reqs.append(f"c11.shape {name}")
+        if "box_local" in impl:
+            a0 = [Fraction(x) for x in p["a"]]
+            d0 = [a0[i] + p["sg"][i] * Fraction(p["d"][i]) for i in range(3)]
+            reqs.append("c11.box " + ",".join(core.rat(x) for x in a0) + " " + ",".join(core.rat(x) for x in d0))
         for b in impl["blocks"]:
             reqs.append("c11.rh " + " ".join(",".join(impl["verts"][v]) for v in b))
         return reqs
@@ -1146,6 +1156,11 @@ class C11(core.Check):
                 return f"blocking of {k} differs from the probe table {self._table_name(case)}: {impl['blocks']} vs {a[0]}"
             if sorted(json.loads(a[1])) != impl["chopped"]:
                 return f"chop dispatch of {k}: implementation {impl['chopped']}, probe table {a[1]}"
+        if "box_local" in impl:
+            got = [[core.parse_rat(c) for c in pt.split(",")] for pt in next(it).split(" ")]
+            want = [[core.parse_rat(c) for c in pt] for pt in impl["box_local"]]
+            if len(got) != 8 or any(abs(float(g - w)) > 1e-12 for gp, wp in zip(got, want) for g, w in zip(gp, wp)):
+                return f"corners of Box({p['a']}, ...): implementation {impl['box_local']}, model {got}"
         for bi, b in enumerate(impl["blocks"]):
             a = next(it)
             bad = _bad_corners([[core.parse_rat(c) for c in impl["verts"][v]] for v in b])
@@ -1174,6 +1189,14 @@ class C11(core.Check):
             tag += ":" + case["p"]["sketch"]
         if k == "Chain":
             tag += ":" + "+".join(l["op"] for l in case["p"]["links"])
+        for key, mark in (("far", "far"), ("post", "post"), ("touch", "touch")):
+            if case.get(key):
+                tag += "+" + mark
+        if (case.get("post") or {}).get("scale"):
+            tag += "+scale"
+        for key in ("reuse", "nlen", "taper"):
+            if case.get("p", {}).get(key) not in (None, 0, "1"):
+                tag += "+" + key
         if "blocks" not in impl:
             return tag + ":not-built"
         if impl["write"] == "timeout":
